@@ -429,6 +429,82 @@ static std::string opRefSeg(const vh::Case& c) {
 	return vh::JObj().str("id", c.get("id")).raw("items", s).done();
 }
 
+// ---------------------------------------------------------------- C13: encoded streams
+//   op=encread doc=<hex bytes> chunk=32|64|256 width=1|2|4 policy=skip|throw src=sstream|slow step=N
+//   op=encwrite enc=.. bom=0|1 policy=.. width=1|2|4 text=<hex in UTF-8/16le/32le units of the given width> pieces=<n,n,..>
+//   op=detect doc=<hex>
+template <class Ch, size_t Chunk> static std::string encReadWith(const vh::Case& c) {
+	std::string doc = c.bytes("doc");
+	auto pol = c.get("policy", "skip") == "skip" ? U::UtfEncodingErrorPolicy::Skip : U::UtfEncodingErrorPolicy::ThrowError;
+	std::unique_ptr<std::streambuf> sb;
+	if (c.get("src", "sstream") == "sstream") sb = std::make_unique<std::stringbuf>(doc, std::ios::in);
+	else sb = std::make_unique<vh::SlowBuf>(doc, size_t(c.geti("step", 7)));
+	std::istream is(sb.get());
+	U::CEncodedStreamReader<Ch, Chunk> reader(is, pol);
+	std::basic_string<Ch> out;
+	std::string seq;
+	size_t calls = 0;
+	bool endBefore = reader.IsEnd();
+	for (;;) {
+		auto r = reader.ReadChunk(out);
+		++calls;
+		seq.push_back(r == U::EncodedStreamReadResult::Success ? 'S' : r == U::EncodedStreamReadResult::DecodeError ? 'E' : 'F');
+		if (r != U::EncodedStreamReadResult::Success) break;
+		if (calls > doc.size() + 16) { seq.push_back('!'); break; }      // no progress
+	}
+	// compress the result sequence
+	std::string cs; for (size_t i = 0; i < seq.size();) { size_t j = i; while (j < seq.size() && seq[j] == seq[i]) ++j; cs += seq[i]; if (j - i > 1) cs += std::to_string(j - i); i = j; }
+	return vh::JObj().str("id", c.get("id")).str("type", EncName[int(reader.GetSourceUtfType())]).str("seq", cs).boolean("end_before", endBefore).boolean("end_after", reader.IsEnd())
+		.str("text", vh::hex(bytesFromUnits(out))).done();
+}
+template <class Ch> static std::string encReadW(const vh::Case& c) {
+	long chunk = c.geti("chunk", 256);
+	if (chunk == 32) return encReadWith<Ch, 32>(c);
+	if (chunk == 64) return encReadWith<Ch, 64>(c);
+	return encReadWith<Ch, 256>(c);
+}
+static std::string opEncRead(const vh::Case& c) {
+	long w = c.geti("width", 1);
+	return w == 1 ? encReadW<char>(c) : w == 2 ? encReadW<char16_t>(c) : encReadW<char32_t>(c);
+}
+template <class Ch> static std::string encWriteW(const vh::Case& c) {
+	std::basic_string<Ch> text = unitsFromBytes<Ch>(c.bytes("text"));
+	auto pol = c.get("policy", "skip") == "skip" ? U::UtfEncodingErrorPolicy::Skip : U::UtfEncodingErrorPolicy::ThrowError;
+	int enc = parseEnc(c.get("enc", "utf8"));
+	std::ostringstream os;
+	U::CEncodedStreamWriter writer(os, static_cast<U::UtfType>(enc), c.geti("bom", 0) != 0, pol);
+	std::string codes;
+	size_t pos = 0;
+	std::string pieces = c.get("pieces", "");
+	size_t q = 0;
+	while (pos < text.size() || q < pieces.size()) {
+		size_t n = text.size() - pos;
+		if (q < pieces.size()) { size_t e = pieces.find(',', q); if (e == std::string::npos) e = pieces.size(); n = std::min(n, size_t(atol(pieces.substr(q, e - q).c_str()))); q = e + 1; }
+		auto rc = writer.Write(std::basic_string_view<Ch>(text.data() + pos, n));
+		codes.push_back(rc == U::UtfEncodingErrorCode::Success ? 'S' : 'E');
+		pos += n;
+		if (q >= pieces.size() && pos >= text.size()) break;
+	}
+	return vh::JObj().str("id", c.get("id")).str("codes", codes).str("bytes", vh::hex(os.str())).done();
+}
+static std::string opEncWrite(const vh::Case& c) {
+	long w = c.geti("width", 1);
+	return w == 1 ? encWriteW<char>(c) : w == 2 ? encWriteW<char16_t>(c) : encWriteW<char32_t>(c);
+}
+static std::string opDetect(const vh::Case& c) {
+	std::string doc = c.bytes("doc");
+	size_t off = 0;
+	auto t = U::DetectEncoding(std::string_view(doc), off);
+	std::istringstream is(doc);
+	auto t2 = U::DetectEncoding(is, true);
+	long long posSkip = static_cast<long long>(is.tellg());
+	std::istringstream is2(doc);
+	auto t3 = U::DetectEncoding(is2, false);
+	long long posKeep = static_cast<long long>(is2.tellg());
+	return vh::JObj().str("id", c.get("id")).str("type", EncName[int(t)]).num("offset", (long long)off).str("stream_type", EncName[int(t2)]).num("stream_pos", posSkip)
+		.str("stream_type_keep", EncName[int(t3)]).num("stream_pos_keep", posKeep).boolean("stream_good", is.good()).done();
+}
+
 int main() {
 	std::string line;
 	while (std::getline(std::cin, line)) {
@@ -441,6 +517,9 @@ int main() {
 			else if (op == "dumpref") out = opDumpRef(c);
 			else if (op == "sweep12") out = opSweep12(c);
 			else if (op == "refseg") out = opRefSeg(c);
+			else if (op == "encread") out = opEncRead(c);
+			else if (op == "encwrite") out = opEncWrite(c);
+			else if (op == "detect") out = opDetect(c);
 			else out = vh::JObj().str("id", c.get("id")).str("error", "unknown op").done();
 		} catch (const std::exception& ex) {
 			out = vh::JObj().str("id", c.get("id")).str("error", std::string("driver exception: ") + ex.what()).done();
